@@ -49,6 +49,12 @@ def check_tree(ctx, case):
             bk = (name, ap.arrangement)
             if A.idsig(root) != src_sig:
                 return ctx.fail(("source-modified",) + bk, case, det)
+            if name == "BM" and ap.target_sig_before is not None and not ({id(x) for x in A.preorder(res)} & ap.target_ids):
+                # balanced move builds both new sides on a clone of the whole equation that it takes itself: the
+                # tree it was handed is then "the tree from which the rewritten copy was cloned" and must be left
+                # as it was (the other rules rewrite the handed tree in place, which is why agents clone first)
+                if A.idsig(ap.target_root) != ap.target_sig_before:
+                    return ctx.fail(("source-modified-by-copying-rule",) + bk, case, det)
             aud = A.audit(res)
             if aud is not None:
                 det["audit"] = aud
